@@ -170,3 +170,106 @@ def _(c):
         return And(same_year_offset(back, a.yo), pos == n, layout)
 
     c.returns(post)
+
+
+# ------------------------------------------------------------------------------------------ recurrences and alternating maps (tokens)
+from pyvc.contracts import Gen  # noqa: E402
+
+from .gens import OffsetG  # noqa: E402
+
+INT_MIN, INT_MAX = -(2**31), 2**31 - 1
+REC = "_ZoneRecurrence__"
+
+
+class RecurrenceG(Gen):
+    def __init__(self, infinite=False, savings_zero=False):
+        self.infinite, self.savings_zero = infinite, savings_zero
+
+    def make(self, name, b):
+        from pyvc import sym
+        from pyvc.values import SObj
+        from pyoda_time.time_zones._zone_recurrence import _ZoneRecurrence
+
+        fy, ty = (INT_MIN, INT_MAX) if self.infinite else (sym.var_int(f"{name}.from_year"), sym.var_int(f"{name}.to_year"))
+        if not self.infinite:
+            b.assume(And(Or(fy == INT_MIN, And(fy >= -9998, fy <= 9999)), Or(ty == INT_MAX, And(ty >= -9998, ty <= 9999))))
+        sav = OffsetG().make(name + ".savings", b)
+        if self.savings_zero:
+            b.assume(V.off_seconds(sav) == 0)
+        return SObj(_ZoneRecurrence, {REC + "name": name.upper(), REC + "savings": sav, REC + "year_offset": ZoneYearOffsetG().make(name + ".yo", b), REC + "from_year": fy, REC + "to_year": ty}, owner=-1, tag=name)
+
+
+def _rec_setup(eng):
+    """tokens for the primitives; the constructor's two occurrence computations (cached bounds) play no part in the codec"""
+    _tok_setup(eng)
+    from pyvc.values import SObj
+    from pyoda_time._local_instant import _LocalInstant
+    from pyoda_time.time_zones._zone_year_offset import _ZoneYearOffset
+
+    def occ(eng, self_, year):
+        return SObj(_LocalInstant, {"$opaque": True}, owner=eng.active_runs[-1])
+
+    eng.func_models[vars(_ZoneYearOffset)["_get_occurrence_for_year"]] = occ
+
+
+def same_recurrence(x, y, years=True):
+    fx, fy = (lambda n: V.fld(x, REC + n)), (lambda n: V.fld(y, REC + n))
+    conj = [fx("name") == fy("name"), V.off_seconds(fx("savings")) == V.off_seconds(fy("savings")), same_year_offset(fx("year_offset"), fy("year_offset"))]
+    if years:
+        conj += [fx("from_year") == fy("from_year"), fx("to_year") == fy("to_year")]
+    return And(*conj)
+
+
+@contract(H + "rt_recurrence", "C14", name="_ZoneRecurrence._write / read: name, savings, yearly rule, from/to years round trip; exact consumption")
+def _(c):
+    c.arg("rec", RecurrenceG())
+    _io(c)
+    c.setup = _rec_setup
+    c.crosscheck = 0
+    c.replayable = False
+    fy = lambda a: V.fld(a.rec, REC + "from_year")  # noqa: E731
+    ty = lambda a: V.fld(a.rec, REC + "to_year")  # noqa: E731
+    writable = lambda a: ty(a) >= 0  # noqa: E731  (counts are unsigned: a negative last year is rejected by the writer)
+    c.returns(lambda a, r: And(same_recurrence(r[0], a.rec), r[1] == r[2]), when=lambda a: And(writable(a), Or(fy(a) == INT_MIN, fy(a) >= 1)), label="round-trip")
+    # the format has no way to write a finite first year <= 0: it is stored as 0, which reads back as 'from the beginning of time'
+    c.returns(lambda a, r: And(same_recurrence(r[0], a.rec), r[1] == r[2]), when=lambda a: And(writable(a), fy(a) != INT_MIN, fy(a) <= 0), label="from-year-not-positive")
+    c.raises(ValueError, when=lambda a: Not(writable(a)))
+
+
+class AltMapG(Gen):
+    def make(self, name, b):
+        from pyvc.values import SObj
+        from pyoda_time.time_zones._standard_daylight_alternating_map import _StandardDaylightAlternatingMap as M
+
+        return SObj(
+            M,
+            {
+                "_StandardDaylightAlternatingMap__standard_offset": OffsetG().make(name + ".std_off", b),
+                "_StandardDaylightAlternatingMap__standard_recurrence": RecurrenceG(infinite=True, savings_zero=True).make(name + "_std", b),
+                "_StandardDaylightAlternatingMap__dst_recurrence": RecurrenceG(infinite=True).make(name + "_dst", b),
+            },
+            owner=-1,
+            tag=name,
+        )
+
+
+@contract(H + "rt_alt_map", "C14", name="_StandardDaylightAlternatingMap._write / _read: standard offset, both names and yearly rules, DST savings round trip; exact consumption")
+def _(c):
+    c.arg("m", AltMapG())
+    _io(c)
+    c.setup = _rec_setup
+    c.crosscheck = 0
+    c.replayable = False
+    P_ = "_StandardDaylightAlternatingMap__"
+
+    def post(a, r):
+        back, pos, n = r
+        g = lambda o, k: V.fld(o, P_ + k)  # noqa: E731
+        return And(
+            V.off_seconds(g(back, "standard_offset")) == V.off_seconds(g(a.m, "standard_offset")),
+            same_recurrence(g(back, "standard_recurrence"), g(a.m, "standard_recurrence")),
+            same_recurrence(g(back, "dst_recurrence"), g(a.m, "dst_recurrence")),
+            pos == n,
+        )
+
+    c.returns(post)
